@@ -589,3 +589,43 @@ def check_C14(tier: str, seed: int) -> int:
         "translation validation: cert_fastest is about accepted paths; that every path of the implementation is accepted is observed on the runs of this check",
         "slack = 1e-9 x (fastest time + 1 s) absorbs the rounding of float sums inside networkx",
         "no parallel links between one ordered junction pair (the link table keeps one link per pair)"])
+
+
+EVENTS_BUDGET = {"quick": 48, "thorough": 1200}
+
+
+@register("C19")
+def check_C19(tier: str, seed: int) -> int:
+    v = fw.Verdict("C19", tier, seed, "proof")
+    ps = fw.ProofStatus("C19", ["Properties.C19"])
+    el = layers.events_layer(seed, EVENTS_BUDGET[tier])
+    ok1 = use_simple_layer(v, "C19", el, "events", ["C19"])
+    n_hist, steps = HIST_BUDGET[tier]
+    hl = layers.hist_layer(seed, n_hist, steps)
+    ok2 = use_hist_layer(v, "C19", hl, ["C19"])
+    if (not ps.ok or not ok1 or not ok2) and not v.violations:
+        big = layers.events_layer(seed + 7919, EVENTS_BUDGET[tier] * 4)
+        use_simple_layer(v, "C19", big, "events", ["C19"])
+        v.notes.append(f"escalated search: {big['cases']} further runs")
+    if not ps.ok:
+        v.broken(f"proof obligation for C19: {ps.failing_obligation()}", {"theorem_or_build": ps.failing_obligation()})
+    cov = {**fw.proof_coverage(ps), **hist_coverage(hl)}
+    cov["evaluations"] = el["rows"] + hl["records"]
+    cov["distinct_nontrivial"] = len(el["shapes"])
+    cov["rule"] = ("whole runs: packaged denver_downtown scenarios (plain, fleets, constrained charging; default Dispatcher + ChargingFleetManager + drivers; haversine network), "
+                   "30-200 steps of 30/60/120/300 s from 5 start times, timeout in {600,300,2dt}, lazy and eager reading, with the real EventfulHandler and StatsHandler writing "
+                   "event.log and summary stats into a scratch directory; the log is parsed back line by line (an unparsable record is a violation) and the Lean function "
+                   "Hive.EventLedger.violEvents audits it against the final SimulationState and the summary: per vehicle sum of move km = odometer advance and sum of charge "
+                   "energy = energy gained; per station and step the load record = that step's charge events; add / cancel counts = summary; every request added once and "
+                   "accounted for by exactly one of cancel / pickup / still waiting; drop-offs match pickups minus passengers on board; pickup waiting time in [0, timeout + dt]; "
+                   "evaluations = log records audited + history records; plus the history layer (the model files events next to state changes; event lists compared with the "
+                   "implementation's after every phase of adversarial histories); distinct_nontrivial = distinct (scenario, dt, event kinds present, #pickups, #cancels, charging?) tuples")
+    cov["samples"] = [el["sample"]] + cov.get("samples", [])
+    cov["runs"] = el["cases"]
+    cov["log_records"] = el["rows"]
+    v.coverage = cov
+    v.assumptions = ["the run-level sums are proved per operation (move/charge/pickup/dropoff_reports) and composed arithmetically (ledger_compose); the lift through the phase "
+                     "folds to one run theorem over state+log is not formalised - whole runs are audited instead",
+                     "event energies and distances are floats: sums compared with relative tolerance 1e-9",
+                     "stations with plugs of two energy types get one load figure that adds kWh and gallons (implementation behaviour; the packaged scenarios have none)"]
+    return v.finish()
